@@ -65,6 +65,7 @@ type c17Sess struct {
 	s          *Sess
 	idx        int
 	autocommit bool
+	explicit   bool // the open transaction was started by BEGIN / START TRANSACTION
 	inTxn      bool // explicit transaction open, or autocommit=0 and a statement ran since the last commit
 	readOnly   bool
 	view       c17State       // committed + own pending (valid while inTxn)
@@ -144,13 +145,13 @@ func checkC17(env *kernel.Env) {
 				}
 			}
 		}
-		x.inTxn, x.readOnly, x.view, x.wrote = false, false, nil, nil
+		x.inTxn, x.readOnly, x.view, x.wrote, x.explicit = false, false, nil, nil, false
 	}
 	rollback := func(x *c17Sess) {
 		for v := range x.wrote {
 			vals[v].dead = true
 		}
-		x.inTxn, x.readOnly, x.view, x.wrote = false, false, nil, nil
+		x.inTxn, x.readOnly, x.view, x.wrote, x.explicit = false, false, nil, nil, false
 	}
 	checkRead := func(x *c17Sess, t c17Table) {
 		r := x.s.Exec("SELECT id, v FROM " + t.name + " ORDER BY id, v")
@@ -221,8 +222,15 @@ func checkC17(env *kernel.Env) {
 			}
 			if x.inTxn || !x.autocommit {
 				acts = append(acts, act{"commit", 4}, act{"rollback", 3})
+				if !x.readOnly {
+					// BEGIN with work pending (open transaction, or autocommit=0):
+					// the pending work is committed first, as in MySQL
+					acts = append(acts, act{"begin-over-pending", 1})
+				}
 			}
-			if !x.autocommit {
+			if !x.autocommit && !x.explicit {
+				// (SET autocommit=1 inside an explicit transaction: MySQL commits it, this
+				// engine lets it run on until COMMIT; the property does not speak about it)
 				acts = append(acts, act{"autocommit1", 2})
 			}
 			// DDL inside an open transaction is not generated: MySQL commits
@@ -344,6 +352,20 @@ func checkC17(env *kernel.Env) {
 				break
 			}
 			c17Apply(x, &committed, vals, t.name, id, c17Row{}, true, regimeV)
+		case "begin-over-pending":
+			q := []string{"BEGIN", "START TRANSACTION"}[T.Draw(2)]
+			r := x.s.Exec(q)
+			env.Logf("%s %s (work pending: implicit commit) -> %s", who, q, ErrClass(r.Err))
+			if r.Err != nil {
+				env.Fail("statement-outcome", "begin-rejected", "%s: %s failed: %v", who, q, r.Err)
+				break
+			}
+			env.Probe("begin-over-pending-work")
+			commit(x)
+			x.explicit = true
+			x.inTxn, x.readOnly = true, false
+			x.view = committed.clone()
+			x.wrote = map[int64]bool{}
 		case "begin", "begin-ro":
 			q := "START TRANSACTION"
 			if a == "begin-ro" {
@@ -357,6 +379,7 @@ func checkC17(env *kernel.Env) {
 				env.Fail("statement-outcome", "begin-rejected", "%s: %s failed: %v", who, q, r.Err)
 				break
 			}
+			x.explicit = true
 			x.inTxn, x.readOnly = true, a == "begin-ro"
 			x.view = committed.clone()
 			x.wrote = map[int64]bool{}
